@@ -249,7 +249,7 @@ func (g *G) planCreate(stream string, id string, poolSize int, kind Item, varian
 	c := &Case{Kind: "create", Stream: stream, Container: g.container(id, stream == "removal"), Plugins: g.subset(poolSize, n)}
 	g.echoC, g.echoRes = c.Container, c.Container.Res
 	p := newPlanner(g, n)
-	targets := []string{"o1", "o2"}
+	targets := []string{"o1", "o2", ""} // "": an update that names no container is an update of the container named "" (a target of its own)
 	switch {
 	case stream == "disjoint", stream == "removal":
 		p.dealDisjoint(true, targets, 5)
@@ -263,7 +263,7 @@ func (g *G) planCreate(stream string, id string, poolSize int, kind Item, varian
 		}
 		via := ""
 		if updatable(kind) && g.r.Intn(2) == 0 {
-			via = targets[g.r.Intn(2)]
+			via = targets[g.r.Intn(len(targets))]
 		}
 		_, c.Note = p.collide(kind, i, j, variant, via)
 	case stream == "selfupdate":
@@ -280,7 +280,7 @@ func (g *G) planCreate(stream string, id string, poolSize int, kind Item, varian
 				p.act(who, it, []Op{OpSet, OpSet, OpRemove, OpRemoveSet}[g.r.Intn(4)])
 			}
 			if g.r.Intn(3) == 0 {
-				p.update(who, targets[g.r.Intn(2)], g.randomItems(updatableItems, 1+g.r.Intn(2)), g.r.Intn(4) == 0, false)
+				p.update(who, targets[g.r.Intn(len(targets))], g.randomItems(updatableItems, 1+g.r.Intn(2)), g.r.Intn(4) == 0, false)
 			}
 		}
 	}
@@ -344,6 +344,26 @@ func (g *G) planIgnored(p *planner, n int, targets []string) {
 		}
 	}
 	p.update(j, t, mine, true, false)
+	// the dropped update is not the last one of its response half of the time: what FOLLOWS it (another target,
+	// or another field of the same target) must still be collected
+	if g.r.Intn(2) == 0 {
+		g.aftermath++
+		t2 := targets[g.aftermath%len(targets)]
+		for x := range updatableItems {
+			z := updatableItems[(g.aftermath+x)%len(updatableItems)]
+			named := false
+			for _, it := range mine {
+				if it == z {
+					named = true
+				}
+			}
+			if !named && p.free(t2, z) {
+				p.take(t2, z, j)
+				p.update(j, t2, []Item{z}, false, false)
+				break
+			}
+		}
+	}
 	if own != nil {
 		k := j + 1 + g.r.Intn(n-j-1)
 		p.update(k, ownT, []Item{*own}, false, false)
@@ -392,7 +412,7 @@ func (g *G) planUpdate(stream string, id string, poolSize int, kind Item) *Case 
 	}
 	g.echoC, g.echoRes = nil, c.ReqRes
 	p := newPlanner(g, n)
-	targets := []string{id, id, "o1", "o2"}
+	targets := []string{id, id, "o1", "o2", ""}
 	switch {
 	case stream == "udisjoint":
 		p.dealDisjoint(false, targets, 0)
@@ -414,13 +434,13 @@ func (g *G) planStop(stream string, id string, poolSize int) *Case {
 	c := &Case{Kind: "stop", Stream: stream, Container: &nm.Container{ID: id}, Plugins: g.subset(poolSize, n)}
 	g.echoC, g.echoRes = nil, nil
 	p := newPlanner(g, n)
-	targets := []string{id, "o1", "o2"}
+	targets := []string{id, "o1", "o2", ""}
 	if stream == "sdisjoint" {
 		p.dealDisjoint(false, targets, 0)
 	} else {
 		for who := 0; who < n; who++ {
 			if g.r.Intn(2) == 0 {
-				p.update(who, targets[g.r.Intn(3)], g.randomItems(updatableItems, 1+g.r.Intn(2)), g.r.Intn(4) == 0, false)
+				p.update(who, targets[g.r.Intn(len(targets))], g.randomItems(updatableItems, 1+g.r.Intn(2)), g.r.Intn(4) == 0, false)
 			}
 		}
 	}
